@@ -279,8 +279,158 @@ class ComputeUpdateSelection(Spec):
         return res
 
 
-UNITS = [UpdateRule(), UpdateParameters(), ComputeUpdateSelection()]
+# ------------------------------------------------------------------------------------------------------------------
+# mixture model: the four update rules of leaspy.models.utilities, any number of individuals, 2 clusters
+K_CLUSTERS = 2
+
+
+def _mixture_state(cx, ip_name, n_src=2):
+    from leaspy.utils.weighted_tensor import WeightedTensor
+    shape = (n, n_src) if ip_name == "sources" else (n, 1)
+    mean_shape = (n_src, K_CLUSTERS) if ip_name == "sources" else (K_CLUSTERS,)
+    state = {ip_name: STensor.sym(cx, ip_name, shape),
+             f"{ip_name}_mean": STensor.sym(cx, ip_name + "_mean", mean_shape),
+             "probs": STensor.sym(cx, "probs", (K_CLUSTERS,)),
+             "nll_regul_ind_sum_ind": SymObj(WeightedTensor, dict(value=STensor.sym(cx, "nll_regul_ind_sum_ind", (n, K_CLUSTERS)), weight=None))}
+    return state
+
+
+def responsibilities(cx, state):
+    """r_ik = softmax_k(max(-nll_regul_ind_sum_ind[i, k], -100)): the documented cluster responsibilities of individual i"""
+    from pyvc.tensor import softmax_along
+    nll = state["nll_regul_ind_sum_ind"].f["value"]
+    neg = STensor(nll.shape_, lambda idx: z3.If(-nll.fn(idx) < -100, z3.RealVal(-100), -nll.fn(idx)), "real")
+    return softmax_along(cx.it, neg, 1)
+
+
+class MixtureMeanRule(Spec):
+    """compute_ind_param_mean_from_suff_stats_mixture: per cluster k (and source s) the responsibility-weighted mean of the
+    individuals' current latent values: m_k * sum_i r_ik = sum_i r_ik z_i, with the responsibilities of the CURRENT state."""
+    target = "leaspy.models.utilities:compute_ind_param_mean_from_suff_stats_mixture"
+    ob_meta = {"purify_first": True}
+
+    def configs(self):
+        return [dict(ip=x) for x in ("tau", "xi", "sources")]
+
+    def setup(self, cx, cfg):
+        cx.assume(n >= 1)
+        state = _mixture_state(cx, cfg["ip"])
+        return dict(args=(state,), kwargs=dict(ip_name=cfg["ip"]), state=state)
+
+    def post(self, cx, st, out):
+        r_, ip = out.value, st["cfg"]["ip"]
+        state = st["state"]
+        want_nd = 2 if ip == "sources" else 1
+        ok = isinstance(r_, STensor) and r_.ndim == want_nd
+        res = [("one mean per cluster (and per source)", z3.BoolVal(bool(ok)))]
+        if not ok:
+            return res
+        resp, z = responsibilities(cx, state), state[ip]
+        cl = []
+        for k in range(K_CLUSTERS):
+            size = sigma_term(cx, lambda i: resp.fn((i, z3.IntVal(k))), n)
+            for s_ in range(z.shape_[1] if ip == "sources" else 1):
+                got = r_.fn((z3.IntVal(s_), z3.IntVal(k))) if ip == "sources" else r_.fn((z3.IntVal(k),))
+                tot = sigma_term(cx, lambda i: resp.fn((i, z3.IntVal(k))) * z.fn((i, z3.IntVal(s_))), n)
+                cl.append(got == tot / size)
+        res.append(("cluster mean = sum_i r_ik z_i / sum_i r_ik (responsibilities of the current state)", z3.And(*cl)))
+        return res
+
+
+class MixtureProbs(Spec):
+    """compute_probs_from_state: probability of cluster k = mean over the individuals of the responsibilities r_ik; they sum to one."""
+    target = "leaspy.models.utilities:compute_probs_from_state"
+    ob_meta = {"purify_first": True}
+
+    def setup(self, cx, cfg):
+        cx.assume(n >= 1)
+        state = _mixture_state(cx, "tau")
+        return dict(args=(state,), state=state)
+
+    def post(self, cx, st, out):
+        r_ = out.value
+        ok = isinstance(r_, STensor) and r_.ndim == 1
+        res = [("one probability per cluster", z3.BoolVal(bool(ok)))]
+        if not ok:
+            return res
+        resp = responsibilities(cx, st["state"])
+        res.append(("probability of cluster k = (sum_i r_ik) / n", z3.And(*[
+            r_.fn((z3.IntVal(k),)) == sigma_term(cx, lambda i: resp.fn((i, z3.IntVal(k))), n) / z3.ToReal(n) for k in range(K_CLUSTERS)])))
+        return res
+
+
+class MixtureStdBurnIn(Spec):
+    """compute_ind_param_std_from_suff_stats_mixture_burn_in: per cluster, the responsibility-weighted mean of the empirical
+    standard deviation of the current latent values (which does not depend on the individual: it is that standard deviation)."""
+    target = "leaspy.models.utilities:compute_ind_param_std_from_suff_stats_mixture_burn_in"
+    ob_meta = {"purify_first": True}
+
+    def configs(self):
+        return [dict(ip=x) for x in ("tau", "xi")]
+
+    def setup(self, cx, cfg):
+        cx.assume(n >= 2)
+        state = _mixture_state(cx, cfg["ip"])
+        return dict(args=(state,), kwargs=dict(ip_name=cfg["ip"]), state=state)
+
+    def post(self, cx, st, out):
+        r_, ip = out.value, st["cfg"]["ip"]
+        ok = isinstance(r_, STensor) and r_.ndim == 1
+        res = [("one value per cluster", z3.BoolVal(bool(ok)))]
+        if not ok:
+            return res
+        state = st["state"]
+        resp, z = responsibilities(cx, state), state[ip]
+        zero = z3.IntVal(0)
+        mean = sigma_term(cx, lambda i: z.fn((i, zero)), n) / z3.ToReal(n)
+        var = sigma_term(cx, lambda i: (z.fn((i, zero)) - mean) * (z.fn((i, zero)) - mean), n) / (z3.ToReal(n) - 1)
+        sd = F_SQRT(var)
+        res.append(("per cluster: sum_i r_ik sd / sum_i r_ik, sd the empirical standard deviation of the latent values", z3.And(*[
+            r_.fn((z3.IntVal(k),)) == sigma_term(cx, lambda i: resp.fn((i, z3.IntVal(k))) * sd, n) / sigma_term(cx, lambda i: resp.fn((i, z3.IntVal(k))), n)
+            for k in range(K_CLUSTERS)])))
+        return res
+
+
+class MixtureStdRule(Spec):
+    """compute_ind_param_std_from_suff_stats_mixture (after the memory-less phase): per cluster k the dispersion of the latent
+    values around the PRE-step cluster mean m_k, sd_k = sqrt(mean(z^2) - 2 m_k mean(z) + m_k^2), responsibility-averaged
+    (sum_i r_ik sd_k / sum_i r_ik)."""
+    target = "leaspy.models.utilities:compute_ind_param_std_from_suff_stats_mixture"
+    ob_meta = {"purify_first": True}
+
+    def configs(self):
+        return [dict(ip=x) for x in ("tau", "xi")]
+
+    def setup(self, cx, cfg):
+        cx.assume(n >= 1)
+        state = _mixture_state(cx, cfg["ip"])
+        S1, S2 = STensor.sym(cx, "S_values", (n, 1)), STensor.sym(cx, "S_sqr_values", (n, 1))
+        return dict(args=(state, S1, S2), kwargs=dict(ip_name=cfg["ip"], dim=0), state=state, S1=S1, S2=S2)
+
+    def post(self, cx, st, out):
+        r_, ip = out.value, st["cfg"]["ip"]
+        ok = isinstance(r_, STensor) and r_.ndim == 1
+        res = [("one value per cluster", z3.BoolVal(bool(ok)))]
+        if not ok:
+            return res
+        state = st["state"]
+        resp = responsibilities(cx, state)
+        zero = z3.IntVal(0)
+        m1 = sigma_term(cx, lambda i: st["S1"].fn((i, zero)), n) / z3.ToReal(n)
+        m2 = sigma_term(cx, lambda i: st["S2"].fn((i, zero)), n) / z3.ToReal(n)
+        cl = []
+        for k in range(K_CLUSTERS):
+            mo = state[ip + "_mean"].fn((z3.IntVal(k),))
+            sd = F_SQRT(m2 - 2 * mo * m1 + mo * mo)
+            cl.append(r_.fn((z3.IntVal(k),)) == sigma_term(cx, lambda i: resp.fn((i, z3.IntVal(k))) * sd, n) / sigma_term(cx, lambda i: resp.fn((i, z3.IntVal(k))), n))
+        res.append(("per cluster: responsibility-average of sqrt(mean(z^2) - 2 m_k mean(z) + m_k^2), m_k the pre-step mean", z3.And(*cl)))
+        return res
+
+
+UNITS = [UpdateRule(), UpdateParameters(), ComputeUpdateSelection(), MixtureMeanRule(), MixtureProbs(), MixtureStdBurnIn(), MixtureStdRule()]
 CALLEES = [Probe("leaspy.variables.specs:ModelParameter.compute_update", "compute_update")]
 ASSUMPTIONS = ["square root uninterpreted (congruence only: code and specification apply it to equal radicands)",
-               "real arithmetic", "mixture models' rules (probabilities, mixture means / stds) are outside these contracts"]
-NOT_DECIDED = ["mixture-model update rules (compute_probs_from_state, *_mixture)"]
+               "real arithmetic", "mixture model: softmax as exp(x_k) / sum_k' exp(x_k') with exp uninterpreted (2 clusters); the rules are verified on the "
+               "functions of leaspy.models.utilities, not through the mixture model's variable graph"]
+NOT_DECIDED = ["mixture model: the wiring of the four rules into the mixture graph (which rule, which statistic), and 'the probabilities sum to one' "
+               "(additivity of two atomic sums whose bodies add up to 1 is not available to the solver): bounded stand-in (monitored mixture fit) only"]
